@@ -163,25 +163,42 @@ GRID = [0, 1, 2, 3, -1, -2, 0x7fffffff, 0x80000000, 0xffffffff, 0x100000000, 0x7
 
 
 class Corpus:
+    """one family, written as unit files of at most MAXMOD modules (small units: small goto binaries, and CBMC's counterexample
+    trace - needed to confirm a violation natively - is superlinear in the static data of the unit)"""
+    MAXMOD = 5
+
     def __init__(self, name):
         self.name = name
-        self.lines = ["# C20 generated unit %s (tools/gen_c20.py, seed %s)" % (name, os.environ.get("VERIF_SEED", "0"))]
+        self.mods = []
+        self.solos = []
 
-    def module(self, name, items, funcs, entries=None):
-        """funcs: list of (fname, signature, body lines); every function is exported"""
+    def module(self, name, items, funcs, entries=None, solo=False):
+        """funcs: list of (fname, signature, body lines); every function is exported.  solo: the module gets a unit file of its
+        own (modules on which the translator is known to fail: the counterexample trace of a small unit takes seconds, not minutes)"""
+        lines = []
         for e in entries or []:
-            self.lines.append("#@ entry %s.%s" % (name, e))
-        self.lines.append("%s: module" % name)
-        self.lines.append("  export " + ", ".join(f[0] for f in funcs))
-        self.lines += items
+            lines.append("#@ entry %s.%s" % (name, e))
+        lines.append("%s: module" % name)
+        lines.append("  export " + ", ".join(f[0] for f in funcs))
+        lines += items
         for fname, sig, body in funcs:
-            self.lines.append("%s: func %s" % (fname, sig))
-            self.lines += ["  " + b if not b.endswith(":") else b for b in body]
-            self.lines.append("  endfunc")
-        self.lines.append("  endmodule")
+            lines.append("%s: func %s" % (fname, sig))
+            lines += ["  " + b if not b.endswith(":") else b for b in body]
+            lines.append("  endfunc")
+        lines.append("  endmodule")
+        if solo:
+            self.solos.append((name, lines))
+        else:
+            self.mods.append(lines)
 
-    def text(self):
-        return "\n".join(self.lines) + "\n"
+    def write(self, outdir):
+        groups = [(str(k // self.MAXMOD), self.mods[k:k + self.MAXMOD]) for k in range(0, len(self.mods), self.MAXMOD)] + [("_" + n, [m]) for n, m in self.solos]
+        for k, g in groups:
+            lines = ["# C20 generated family %s part %s (tools/gen_c20.py, seed %s)" % (self.name, k.strip("_"), os.environ.get("VERIF_SEED", "0"))]
+            for m in g:
+                lines += m
+            open(os.path.join(outdir, "%s%s.mir" % (self.name, k)), "w").write("\n".join(lines) + "\n")
+        return len(groups)
 
 
 def corpus(outdir, tier):
@@ -204,7 +221,7 @@ def corpus(outdir, tier):
                 fn = "c20_" + o
                 funcs.append((fn, "i64, i64:a, i64:b", ["local i64:r", "%s r, a, b" % o] + post + ["ret r"]))
                 ents.append(fn + (" b=set0,1,%d" % (31 if sfx else 63) if sh else "") + (" note=shift_counts_0_1_max" if sh else ""))
-            u.module("ops_i3_%d" % n, [], funcs, ents)
+            u.module("ops_i3_%d" % n, [], funcs, ents, solo=("uge" in grp))
             n += 1
     # mul / div / mod: boundary grid for both operands (compile-time constants inside one function per pair group)
     for op in MULDIV:
@@ -271,7 +288,7 @@ def corpus(outdir, tier):
                 ents.append(fn + " a=set0,3,-1,0x7fffffff,0x100000000,0x4000000000000000 b=set2,-1,0x80000000,4 note=boundary_grid")
             else:
                 ents.append(fn)
-        u.module("br_" + ov, [], funcs, ents)
+        u.module("br_" + ov, [], funcs, ents, solo=ov in ("addo", "subo", "addos", "subos"))
     u.module("br_switch", [], [("c20_switch", "i64, i64:s, i64:x", ["switch s, L_s0, L_s1, L_s2", "L_s0:", "ret x", "L_s1:", "xor x, x, 1", "L_s2:", "xor x, x, 2", "ret x"])], ["c20_switch s=range0..2"])
     units.append(u)
     # ---- unit mem: memory operands of every form and type, data sections of every element type read back
@@ -296,14 +313,14 @@ def corpus(outdir, tier):
     for t, vs in dvals.items():
         sz = M.TSIZE[t]
         u.module("dat_" + t, ["dv: %s %s" % (t, vs)], [("c20_dat_" + t, "i64, i64:i", ["local i64:a, i64:r", "mov a, dv", "mov r, %s:(a, i, %d)" % (t, sz), "ret r"])], ["c20_dat_%s i=set0,1" % t])
-    u.module("dat_one", ["dv: i32 77"], [("c20_dat_one", "i64", ["local i64:a, i64:r", "mov a, dv", "mov r, i32:(a)", "ret r"])], ["c20_dat_one"])
+    u.module("dat_one", ["dv: i32 77"], [("c20_dat_one", "i64", ["local i64:a, i64:r", "mov a, dv", "mov r, i32:(a)", "ret r"])], ["c20_dat_one"], solo=True)
     u.module("dat_fp", ["df: f 1.5f, -0.0f", "dd: d 0.1, 1e308", "dl: ld 1.25L, 3.0L"],
              [("c20_dat_f", "f, i64:i", ["local i64:a, f:r", "mov a, df", "fmov r, f:(a, i, 4)", "ret r"]), ("c20_dat_d", "d, i64:i", ["local i64:a, d:r", "mov a, dd", "dmov r, d:(a, i, 8)", "ret r"]),
               ("c20_dat_ld", "ld, i64:i", ["local i64:a, ld:r", "mov a, dl", "ldmov r, ld:(a)", "ret r"])], ["c20_dat_f i=set0,1", "c20_dat_d i=set0,1", "c20_dat_ld i=set0"])
     u.module("dat_bss", ["bb: bss 16"], [("c20_dat_bss", "i64, i64:v", ["local i64:a, i64:r", "mov a, bb", "mov r, i64:8(a)", "mov i64:8(a), v", "xor r, r, i64:8(a)", "ret r"])], ["c20_dat_bss"])
     u.module("dat_str", ["ss: string \"hi!\""], [("c20_dat_str", "i64, i64:i", ["local i64:a, i64:r", "mov a, ss", "mov r, u8:(a, i)", "ret r"]),
                                                    ("c20_op_str", "i64, i64:i", ["local i64:a, i64:r", "mov a, \"abc\\n\"", "mov r, u8:(a, i)", "ret r"])], ["c20_dat_str i=range0..3", "c20_op_str i=range0..4"])
-    u.module("dat_ref", ["dv: i64 11, 22, 33", "rr: ref dv, 8"], [("c20_dat_ref", "i64", ["local i64:a, i64:r", "mov a, rr", "mov a, i64:(a)", "mov r, i64:(a)", "ret r"])], ["c20_dat_ref"])
+    u.module("dat_ref", ["dv: i64 11, 22, 33", "rr: ref dv, 8"], [("c20_dat_ref", "i64", ["local i64:a, i64:r", "mov a, rr", "mov a, i64:(a)", "mov r, i64:(a)", "ret r"])], ["c20_dat_ref"], solo=True)
     u.module("dat_sect", ["dv: i32 1, 2", "    i16 3", "    i64 4"], [("c20_dat_sect", "i64", ["local i64:a, i64:r", "mov a, dv", "mov r, i16:8(a)", "ret r"])], ["c20_dat_sect"])
     u.module("dat_expr", ["c20_e: func i64", "  local i64:r", "  mov r, 42", "  ret r", "  endfunc", "ev: expr c20_e"], [("c20_dat_expr", "i64", ["local i64:a, i64:r", "mov a, ev", "mov r, i64:(a)", "ret r"])], ["c20_dat_expr"])
     u.module("mem_alloca", [], [("c20_alloca", "i64, i64:v, i64:n", ["local i64:p, i64:q, i64:r", "alloca p, 16", "alloca q, n", "mov i64:8(p), v", "mov i64:(q), n", "mov r, i64:8(p)", "xor r, r, i64:(q)", "ret r"])], ["c20_alloca n=set8,24"])
@@ -323,7 +340,7 @@ def corpus(outdir, tier):
     u.module("call_misc", ["pv: proto i32, p:s, i64:a, ...", "p0: proto", "pb: proto i64, blk:16(b), i64:v", "  import c20x_v, c20x_0"],
              [("c20_gb", "i64, blk:16(b), i64:v", ["local i64:r", "mov r, i64:(b)", "mov i64:(b), v", "xor r, r, i64:8(b)", "ret r"]),
               ("c20_cv", "i64, i64:a", ["local i64:r", "call pv, c20x_v, r, \"fmt\", a, a, 2.5", "call p0, c20x_0", "ret r"]),
-              ("c20_cb", "i64, p:buf, i64:v", ["local i64:r", "call pb, c20_gb, r, blk:16(buf), v", "xor r, r, i64:(buf)", "ret r"])], ["c20_cv", "c20_cb buf=buf16"])
+              ("c20_cb", "i64, p:buf, i64:v", ["local i64:r", "call pb, c20_gb, r, blk:16(buf), v", "xor r, r, i64:(buf)", "ret r"])], ["c20_cv", "c20_cb buf=buf16"], solo=True)
     units.append(u)
     # ---- unit imm: immediates on a boundary grid
     u = Corpus("imm")
@@ -339,13 +356,12 @@ def corpus(outdir, tier):
     # fp immediates as operands of arithmetic insns (no move insn involved; DESIGN.md F8: long double printed from op.u.d)
     for t, sfx in (("f", "f"), ("d", ""), ("ld", "L")):
         u.module("imm_op_" + t, [], [("c20_immop_" + t, "%s, %s:a" % (t, t), ["local %s:r" % t, "%ssub r, a, 1.5%s" % (t if t != "f" else "f", sfx), "ret r"]),
-                                     ("c20_immop2_" + t, "i64, %s:a" % t, ["local i64:r", "%slt r, a, 0.1%s" % (t if t != "f" else "f", sfx), "ret r"])], ["c20_immop_" + t, "c20_immop2_" + t])
+                                     ("c20_immop2_" + t, "i64, %s:a" % t, ["local i64:r", "%slt r, a, 0.1%s" % (t if t != "f" else "f", sfx), "ret r"])], ["c20_immop_" + t, "c20_immop2_" + t], solo=(t == "ld"))
     for t, mv, sfx, v in (("f", "fmov", "f", "1.0e39"), ("d", "dmov", "", "1.0e999"), ("ld", "ldmov", "L", "1.0e9999")):
         u.module("imm_inf_" + t, [], [("c20_imm_inf_" + t, t, ["local %s:r" % t, "%s r, %s%s" % (mv, v, sfx), "ret r"])], ["c20_imm_inf_" + t])
     units.append(u)
-    for u in units:
-        open(os.path.join(outdir, u.name + ".mir"), "w").write(u.text())
-    print("gen_c20: %d units" % len(units))
+    n = sum(u.write(outdir) for u in units)
+    print("gen_c20: %d units, %d modules" % (n, sum(len(u.mods) + len(u.solos) for u in units)))
 
 
 if __name__ == "__main__":
